@@ -281,6 +281,13 @@ def _ev(fn_node: ast.AST, e: ast.AST, env: dict[str, object], depth: int, dsn_cl
 				except Exception:
 					return UNKNOWN
 				return list(out) if isinstance(out, tuple) else out
+		if fn == 'range' and 1 <= len(args) <= 3 and not kwargs and all(isinstance(a, int) and not isinstance(a, bool) and abs(a) <= 64 for a in args):
+			try:
+				return list(range(*args))
+			except ValueError:
+				return RAISES
+		if fn in ('reversed', 'list', 'tuple') and len(args) == 1 and not kwargs and isinstance(args[0], (list, tuple)):
+			return list(reversed(args[0])) if fn == 'reversed' else list(args[0])
 		if fn in ('max', 'min') and len(args) >= 2 and not kwargs and all(isinstance(a, int) for a in args):
 			return max(args) if fn == 'max' else min(args)
 		if fn in ('int', 'float') and args and isinstance(args[0], (str, int, float)) and set(kwargs) <= {'base'}:
